@@ -86,6 +86,7 @@ type FnEnc struct {
 	cur      State
 	curBlock *ssa.BasicBlock
 	curIdx   int // index of the instruction being encoded in curBlock
+	renames  map[string]string // recorded local name -> current name (rename tolerance)
 	curGuard string
 	initState State
 	localRefs map[string]string // heap base -> list of non-escaped local refs (by ref term)
